@@ -1,6 +1,7 @@
 /- `wfdriver`: one request per line on stdin, one response per line on stdout. -/
 import Wf.Drv.Serde
 import Wf.Drv.Adapter
+import Wf.Drv.Fields
 
 open Wf.Drv
 
@@ -8,6 +9,7 @@ def dispatch (line : String) : String :=
   match splitWords line with
   | "c26" :: rest => handleSerde rest
   | "c27" :: rest => handleAdapter rest
+  | "c10" :: rest => handleFields rest
   | _ => "bad-family"
 
 partial def loop (h : IO.FS.Stream) (out : IO.FS.Stream) : IO Unit := do
